@@ -8,9 +8,13 @@ package sx
 import (
 	"fmt"
 	"go/types"
+	"regexp"
+	"strconv"
 	"strings"
 	"sync"
 )
+
+var widthVerb = regexp.MustCompile(`^%(-?)([0-9]+)[sv]$`)
 
 var unicodeMu sync.Mutex
 
@@ -146,6 +150,20 @@ func (i *interpreter) fmtString(verb string, s value) value {
 	}
 	if verb == "%s" || verb == "%v" {
 		return s
+	}
+	// %Ns / %-Ns on symbolic text: pad to N runes (rune count by the real
+	// utf8.RuneCountInString, which may fork on byte classes)
+	if m := widthVerb.FindStringSubmatch(verb); m != nil {
+		w, _ := strconv.Atoi(m[2])
+		n := int(i.concInt(i.callNamed(i.lastFrame, "unicode/utf8", "RuneCountInString", []value{s}), "rune count"))
+		pad := ""
+		if w > n {
+			pad = strings.Repeat(" ", w-n)
+		}
+		if m[1] == "-" {
+			return i.strConcat(s, pad)
+		}
+		return i.strConcat(pad, s)
 	}
 	// Other verbs (%q, widths) on symbolic text: rendered opaquely. Such
 	// strings are error-message text; comparing them is meaningless.
